@@ -61,8 +61,8 @@ SC_KIT = core.register(core.Kit(
                          "Rich": "FALSE", "WithFreeze": "TRUE"},
         "quick": {"NN": 3, "EdgeIds": "{0, 100}", "MaxUid": 4, "MaxEdges": 4, "MaxAttr": 0, "MaxLevel": 4,
                   "Rich": "FALSE", "WithFreeze": "FALSE"},
-        "thorough": {"NN": 3, "EdgeIds": "{0, 1, 100}", "MaxUid": 5, "MaxEdges": 5, "MaxAttr": 0, "MaxLevel": 6,
-                     "Rich": "TRUE", "WithFreeze": "TRUE"},
+        "thorough": {"NN": 3, "EdgeIds": "{0, 100}", "MaxUid": 5, "MaxEdges": 5, "MaxAttr": 0, "MaxLevel": 6,
+                     "Rich": "FALSE", "WithFreeze": "FALSE"},
     },
     invariants=["InvIntegrity", "InvUidFresh", "InvClosed", "InvNoDup", "InvNoEmpty"],
     properties=["PropAddsPreserve", "PropRemoveExact", "PropMaxOrder", "PropFrozen"],
